@@ -54,6 +54,8 @@ def run(chk):
         for prob_ in C.batch_contract(sh_.is_inside, B_, "b"):
             chk.violation("batch-contract", dict(cls=cls_, what=prob_)); break
         chk.count("batch-contract")
+        for prob_ in C.long_batch(sh_.is_inside, B_, "b"):
+            chk.violation("long-batch-vs-short", dict(cls=cls_, what=prob_))
     quick = chk.tier == "quick"
     nconv, nmesh, ncurv, nsph = (25, 25, 30, 12) if quick else (300, 300, 400, 120)
     npts = 60 if quick else 200
